@@ -19,6 +19,8 @@ use vcommon::mon::Args;
 fn main() {
     let args = Args::parse();
     let mut mon = args.monitor();
+    // the quick tier of the geometric monitors runs in well under a second per property: take 20x the base sample counts
+    mon.quick_scale = 20;
     vcommon::mon::quiet_panics();
     let r = std::panic::catch_unwind(std::panic::AssertUnwindSafe(|| run(&args, &mut mon)));
     if r.is_err() {
